@@ -8,7 +8,7 @@ CHOLESKY.  Large orders: observation events validated by spec/obj/ObsTrace.tla.
 import numpy as np
 
 from .. import core, material as M, tlc
-from ..kern_util import call_guard, cmp_vec, cmp_scalar, scale_for
+from ..kern_util import call_guard, cmp_vec, cmp_scalar, scale_for, np_int
 
 
 def levinson_cfg(order, r0set, parts, cplx):
@@ -24,9 +24,13 @@ def lev_entries(rq, cplx):
         arr = np.array(M.cq_seq(rq), dtype=complex)
         return [('ndarray-complex', arr)]
     rl = M.real_list(rq)
+    big = np.zeros(2 * len(rl))
+    big[0::2] = rl
+    big[1::2] = 9.0
     return [('list-int', list(rl)),
             ('ndarray-float', np.array(rl, dtype=float)),
-            ('ndarray-complex0', np.array(rl, dtype=complex))]
+            ('ndarray-complex0', np.array(rl, dtype=complex)),
+            ('strided-view', big[0::2])]
 
 
 def replay_levinson(chk, st, cplx):
@@ -59,8 +63,11 @@ def replay_levinson(chk, st, cplx):
         if not cplx and ename != 'ndarray-complex0' and k > 0:
             if np.iscomplexobj(A) or np.iscomplexobj(ref):
                 chk.violation('LEVINSON:dtype:real', 'real autocorrelation gives complex coefficients', case)
-        # raise / no raise without allow_singularity
-        ok, res = call_guard(LEVINSON, arr)
+        # raise / no raise without allow_singularity (default, and the flag given as any falsy value)
+        cntf = getattr(chk, '_c10_flag', 0)
+        chk._c10_flag = cntf + 1
+        flag = [None, False, 0, np.bool_(False)][cntf % 4]
+        ok, res = call_guard(LEVINSON, arr) if flag is None else call_guard(LEVINSON, arr, allow_singularity=flag)
         if st['status'] == 'indefinite' and ok:
             chk.violation('LEVINSON:no-raise-indefinite:%s:%s' % (mode, ename),
                           'LEVINSON accepts a non positive-definite r=%s (exact P=%s)' % (case['r'], st['P']), case)
@@ -87,7 +94,7 @@ def replay_levinson(chk, st, cplx):
         if st['status'] == 'pd' and k >= 1:
             ext = list(arr) + [arr[-1] * 0 + 1, arr[-1] * 0 - 2]
             ext = ext if isinstance(arr, list) else np.array(ext, dtype=arr.dtype)
-            ok, res = call_guard(LEVINSON, ext, order=k)
+            ok, res = call_guard(LEVINSON, ext, order=np_int(k, getattr(chk, '_c10_flag', 0)))
             if not ok:
                 chk.violation('LEVINSON:nesting-raise:%s:%s' % (mode, ename),
                               'LEVINSON(r, order=q) raised %r' % (res,), case)
